@@ -13,6 +13,8 @@ schedule interleaves.  Chains come from five families:
          level-limit-cut names or unmatched patterns, alone and inside batches
   entry  every option combination of the two entry points (systematic)
   long   random sequences of length 6-9 with evaluations in the middle of the chain
+  reuse  a complete chain is evaluated, then modified (conflicting verb, unknown name, alias,
+         restart, another file / evaluable) and evaluated again on the same object
 
 What each chain *is* (complete / incomplete / contradictory / bad / undefined) is decided
 by the judge's specification automaton from the calls actually executed, never by this file.
@@ -468,6 +470,73 @@ def chain_undef(ctx, client):
     return _finish(new, calls, ev, rng), None
 
 
+def chain_reuse(ctx, client):
+    """A complete chain is evaluated, then receives further calls (or meets another evaluable)
+    and is evaluated again: whatever the first evaluation left behind on the object must not
+    let an ill-formed or undefined second specification through."""
+    rng = ctx.rng
+    fam = W.pick(rng, ["module", "module", "module", "layer", "diagram"])
+    if fam == "module":
+        shape = W.pick(rng, MODULE_SHAPES)
+        if shape[3] is None and rng.random() < 0.7:
+            shape = (shape[0], "should_not", shape[2], None)
+        new, calls, ev = module_chain(ctx, ctx.obj("M", client), shape, 0.0)
+    elif fam == "layer":
+        built = layer_chain(ctx, ctx.obj("L", client), W.pick(rng, LAYER_SHAPES))
+        if built is None:
+            return None, None
+        new, calls, ev = built
+    else:
+        good = [p for p in sorted(ctx.wd["pumls"]) if p != "pbad"]
+        if not good:
+            return None, None
+        built = diagram_chain(ctx, ctx.obj("D", client), W.pick(rng, DIAGRAM_SHAPES), pid=W.pick(rng, good))
+        new, calls, ev = built
+    obj = new["obj"]
+    names = Names(rng, ctx.wd["predicted"][ctx.evs[ev]], ctx.wd["universe"])
+    ops = [new] + calls + [{"op": "apply", "obj": obj, "ev": ev}]
+    for _ in range(rng.randint(1, 2)):
+        r = rng.random()
+        ev2 = ev
+        extra = []
+        if r < 0.2:
+            ev2 = W.pick(rng, sorted(ctx.evs))  # same rule object, another architecture
+        elif fam == "module":
+            if r < 0.4:
+                extra = [_call(obj, W.pick(rng, list(RULE_VERBS)))]
+            elif r < 0.55:
+                kind = W.pick(rng, list(RULE_LISTS))
+                extra = [_call(obj, kind, names.value(kind, 1.0, batch_ok=False))]  # current side
+            elif r < 0.7:
+                kind = W.pick(rng, list(RULE_LISTS))
+                extra = [_call(obj, "modules_that"), _call(obj, kind, names.value(kind, 0.8))]
+            elif r < 0.85:
+                kind = W.pick(rng, list(RULE_LISTS))
+                extra = [_call(obj, W.pick(rng, list(RULE_IMPORTS))),
+                         _call(obj, kind, names.value(kind, 0.8))]
+            else:
+                extra = [_call(obj, W.pick(rng, list(RULE_ANY)))]
+        elif fam == "layer":
+            if r < 0.45:
+                extra = [_call(obj, W.pick(rng, list(LAYER_VERBS)))]
+            elif r < 0.6:
+                extra = [_call(obj, "layers_that")]
+            elif r < 0.75:
+                extra = [_call(obj, W.pick(rng, list(LAYER_ANY)))]
+            elif r < 0.9:
+                extra = [_call(obj, "are_named", "LX")]
+            else:
+                extra = [_call(obj, W.pick(rng, list(LAYER_ACCESS)))]
+        else:
+            if r < 0.6 and "pbad" in ctx.wd["pumls"]:
+                extra = [_call(obj, "from_file", {"$puml": "pbad"})]
+            else:
+                pu = ctx.wd["pumls"][W.pick(rng, sorted(ctx.wd["pumls"]))]
+                extra = [_call(obj, "with_base_module", pu["base"] + ".nosuch")]
+        ops += extra + [{"op": "apply", "obj": obj, "ev": ev2}]
+    return ops, None
+
+
 def chain_long(ctx, client):
     rng = ctx.rng
     fam = W.pick(rng, ["module", "module", "layer", "diagram"])
@@ -574,10 +643,13 @@ def generate(seed, index):
             elif roll < 0.58:
                 kind = "seq"
                 ops, tag = chain_seq(ctx, c, counter)
-            elif roll < 0.85:
+            elif roll < 0.78:
                 kind = "undef"
                 ops, tag = chain_undef(ctx, c)
-            elif roll < 0.94:
+            elif roll < 0.88:
+                kind = "reuse"
+                ops, tag = chain_reuse(ctx, c)
+            elif roll < 0.95:
                 kind = "entry"
                 cfg, tag = scan_entry(ctx, counter, None)
                 cid = f"x{len(cfgs)}"
